@@ -80,6 +80,8 @@ class NumericArray(list):
     -------
     one of gfapy.NumericArray.SUBTYPE
     """
+    if not self:
+      raise gfapy.ValueError("NumericArray is empty")
     if all([isinstance(f, float) for f in self]):
       if not all([math.isfinite(f) for f in self]):
         raise gfapy.ValueError(
